@@ -13,6 +13,17 @@ CLS = r"class\s+formatter\b"
 
 
 def build(src):
+    class IterName:
+        """the local iterator over args_ is called `it` in the loop contract: a differently named one is renamed (the name of a local carries no meaning)"""
+        name = "D3.local-name"
+
+        def apply(self, text):
+            m = re.search(r"(?:auto|__auto_type) (\w+) = args_\.begin\(\)", text)
+            if not m or m.group(1) == "it":
+                return text, 1 if m else 0
+            if re.search(r"\bit\b", text):
+                raise ExtractionError("fmt_str: cannot rename the iterator %s to `it`: the name is taken" % m.group(1))
+            return re.sub(r"\b%s\b" % re.escape(m.group(1)), "it", text), 1
     u = Unit("format", src)
     u.members["fmt"] = src.members(FMT, CLS)
     if [m[1] for m in u.members["fmt"]] != ["format_", "args_"]:
@@ -93,7 +104,7 @@ def build(src):
                    Rule("D7.string-iter", r"\bformat_\.begin\(\)", "((size_t)0)"),
                    Rule("D7.string-iter", r"\bformat_\.end\(\)", "format_.len"),
                    members],
-            pre=[Rule("D2.auto", r"\bauto\b", "__auto_type")],
+            pre=[Rule("D2.auto", r"\bauto\b", "__auto_type"), IterName()],
             must_fire=["D7.regex-literal", "D7.regex-begin", "D7.regex-end", "D7.match-position", "D7.match-length", "D7.arg-range", "D7.append-range", "D3.rvo-return"]))
     u.add(F("fmt_to_string", FMT, r"operator string_type\(\) const", "void fmt_to_string(struct nout *result, %s)" % csf, P, within=W,
             rules=[Rule("D3.rvo-call", r"return\s+str\(\);", "fmt_str(result, self); NITRO_PROPAGATE; return;")], must_fire=["D3.rvo-call"]))
